@@ -205,6 +205,11 @@ def oracle_point(verdict, name, p, x, klass, r, h, refutations, args):
         want = h * termlib.doc_shape(name, p, x)
     except (OverflowError, ZeroDivisionError):
         return n
+    # at +-inf the documented value is a limit that binary64 reaches exactly (0, or the height): exp(-inf) = 0, 1/(1+inf) = 0,
+    # the plateau branches return the constant -- proved over the extended reals (C03c, `*_at_infinity`); demanded bit for bit
+    if math.isinf(x) and want in (0.0, h) and not (r == want):
+        verdict.add_violation(f"{name}:at-infinity", f"{name}{p}.membership({x!r}) = {r!r}, the documented limit is exactly {want!r}", {"term": name, "params": p, "x": x, "got": r, "want": want, "class": klass}); n += 1
+        return n
     # near a break-point of a square-root shaped term rounding of x is amplified: |d sqrt| ~ sqrt(ulp)
     loose = 1e-6 * h if (klass in ("breakpoint", "neighbour") or name in ("Arc", "SemiEllipse")) else tol
     if name in ("Arc", "SemiEllipse"):
